@@ -281,6 +281,13 @@ Proof.
   - rewrite (cancel_persisted _ _ _ H) in He. apply persisted_all; auto.
   - apply resume_cancelled_frame in H. destruct H as (Hp & _). rewrite Hp in He. apply persisted_all; auto.
   - apply resume_read_fail_frame in H. destruct H as (Hp & _). rewrite Hp in He. apply persisted_all; auto.
+  - (* AClose *) injection H as <-. apply persisted_all; auto.
+  - (* ACloseOk: the disk of [crash s1] is the disk of [s1] *)
+    unfold close_ok in H. destruct (persist_ok s) as [s1|] eqn:P; [|discriminate]. injection H as <-.
+    change (In e (persisted s1)) in He.
+    unfold persist_ok in P. destruct (v_batch s) as [b|] eqn:Hb; [|discriminate]. injection P as <-.
+    simpl in He. unfold all_log, batch_l. rewrite Hb. apply in_app_or in He.
+    apply in_or_app. destruct He; auto. right. apply in_or_app; auto.
 Qed.
 
 Lemma step_finished s a s' t th : look s t = Some th -> t_pc th = PFinished -> step s a = Some s' ->
@@ -288,7 +295,7 @@ Lemma step_finished s a s' t th : look s t = Some th -> t_pc th = PFinished -> s
 Proof.
   intros Hl Hpc H.
   assert (Hk : option_map kill (look s t) = Some th) by (rewrite Hl; simpl; unfold kill; rewrite Hpc; auto).
-  destruct a as [t' rq|t'| | | |t'|t'|t']; simpl in H.
+  destruct a as [t' rq|t'| | | |t'|t'|t'| |]; simpl in H.
   - apply start_frame in H. destruct H as (Hn & _ & Ho). rewrite Ho; auto.
     intros ->. rewrite (look_none _ _ Hn) in Hl. discriminate.
   - destruct (Nat.eq_dec t t') as [<-|Hne].
@@ -308,6 +315,11 @@ Proof.
     + exfalso. destruct (look_inv _ _ _ Hl) as (th0 & Hg & ->).
       exact (resume_read_fail_unfinished _ _ _ _ H Hg Hpc).
     + apply resume_read_fail_frame in H. destruct H as (_ & Ho). rewrite Ho; auto.
+  - (* AClose *) injection H as <-. unfold close. rewrite look_crash. exact Hk.
+  - (* ACloseOk *)
+    unfold close_ok in H. destruct (persist_ok s) as [s1|] eqn:P; [|discriminate]. injection H as <-.
+    rewrite look_crash.
+    unfold persist_ok in P. destruct (v_batch s); [|discriminate]. injection P as <-. exact Hk.
 Qed.
 
 Definition quiet (t : tid) (th : thread) (s : state) : Prop :=
@@ -537,4 +549,88 @@ Proof.
       repeat match type of Hf with context [match ?x with _ => _ end] => destruct x end;
       try discriminate; inversion Hf; subst; exact Hik.
   - intros Hp. rewrite Hp in Hf. inversion Hf; subst. exact Hik.
+Qed.
+
+(* ---- graceful shutdown ([AClose] / [ACloseOk]) ------------------------------------------------------------------ *)
+(* a close step is the crash of [s] itself, or of [s] after the batch in flight was written *)
+Lemma close_step_shape s a s' : a = AClose \/ a = ACloseOk -> step s a = Some s' ->
+  (a = AClose /\ s' = crash s) \/
+  (a = ACloseOk /\ exists b s1, v_batch s = Some b /\ persist_ok s = Some s1 /\ s' = crash s1 /\
+                   persisted s1 = persisted s ++ b /\ threads s1 = threads s).
+Proof.
+  intros [->| ->] H; simpl in H.
+  - left. injection H as <-. auto.
+  - right. split; auto. unfold close_ok in H. destruct (persist_ok s) as [s1|] eqn:P; [|discriminate].
+    injection H as <-. unfold persist_ok in P. destruct (v_batch s) as [b|] eqn:Hb; [|discriminate].
+    exists b. eexists. split; [reflexivity|]. split; [rewrite <- P; reflexivity|]. injection P as <-.
+    split; [reflexivity|]. split; reflexivity.
+Qed.
+
+Lemma crash_get ths t th' :
+  get_thread (threads (crash ths)) t = Some th' ->
+  exists th, get_thread (threads ths) t = Some th /\
+    ((t_pc th = PFinished /\ th' = th) \/ (t_pc th <> PFinished /\ t_resp th' = Some RCrashed)).
+Proof.
+  simpl. induction (threads ths) as [|[u x] r IH]; simpl; [discriminate|].
+  destruct (Nat.eqb t u); auto.
+  intros H. injection H as <-. exists x. split; auto.
+  destruct (t_pc x) eqn:Hpc; try (right; split; [discriminate|reflexivity]). left; auto.
+Qed.
+
+Lemma close_answers_nobody s a s' : a = AClose \/ a = ACloseOk -> reachable s -> step s a = Some s' ->
+  forall t th', get_thread (threads s') t = Some th' ->
+    exists th, get_thread (threads s) t = Some th /\
+      (t_resp th' = t_resp th \/ (t_resp th = None /\ t_resp th' = Some RCrashed)).
+Proof.
+  intros Ha R H t th' Hg. pose proof (reachable_inv _ R) as I.
+  assert (Hx : exists s1, s' = crash s1 /\ threads s1 = threads s).
+  { destruct (close_step_shape _ _ _ Ha H) as [(_ & ->)|(_ & b & s1 & _ & _ & -> & _ & Ht)]; eauto. }
+  destruct Hx as (s1 & -> & Ht).
+  destruct (crash_get _ _ _ Hg) as (th & Hget & Hc). rewrite Ht in Hget.
+  exists th. split; auto.
+  destruct Hc as [(_ & ->)|(Hpc & Hr)]; [left; reflexivity|right]. split; auto.
+  pose proof (i_thr _ I _ _ (look_get _ _ _ Hget)) as Hti.
+  apply (ti_resp _ _ _ _ _ Hti). exact Hpc.
+Qed.
+
+Lemma nodup_map_app_disjoint {A B} (f : A -> B) (l1 l2 : list A) x :
+  NoDup (map f (l1 ++ l2)) -> In x l1 -> In x l2 -> False.
+Proof.
+  induction l1 as [|a r IH]; simpl; intros Hnd H1 H2; [contradiction|].
+  inversion Hnd as [|? ? Hni Hnd']; subst. destruct H1 as [->|H1]; [|eauto].
+  apply Hni. apply in_map. apply in_or_app; auto.
+Qed.
+
+Lemma close_drops s a s' : a = AClose \/ a = ACloseOk -> reachable s -> step s a = Some s' ->
+  v_pending s' = [] /\ v_batch s' = None /\
+  (a = AClose -> persisted s' = persisted s) /\
+  (a = ACloseOk -> exists b, v_batch s = Some b /\ persisted s' = persisted s ++ b) /\
+  (forall e, In e (v_pending s) -> ~ In e (persisted s')) /\
+  (a = AClose -> forall b e, v_batch s = Some b -> In e b -> ~ In e (persisted s')).
+Proof.
+  intros Ha R H. pose proof (reachable_inv _ R) as I. pose proof (i_uid _ I) as Hnd.
+  unfold all_log in Hnd.
+  destruct (close_step_shape _ _ _ Ha H) as [(-> & ->)|(-> & b & s1 & Hb & _ & -> & Hp & _)].
+  - split; [reflexivity|]. split; [reflexivity|]. split; [reflexivity|]. split; [discriminate|]. split.
+    + intros e He Hd. change (In e (persisted s)) in Hd.
+      eapply (nodup_map_app_disjoint e_uid _ _ e Hnd); auto.
+      apply in_or_app; right. apply in_or_app; auto.
+    + intros _ b e Hb He Hd. change (In e (persisted s)) in Hd.
+      eapply (nodup_map_app_disjoint e_uid _ _ e Hnd); auto.
+      apply in_or_app; left. unfold batch_l. rewrite Hb. exact He.
+  - split; [reflexivity|]. split; [reflexivity|]. split; [discriminate|].
+    split; [intros _; exists b; split; [exact Hb|exact Hp]|]. split; [|discriminate].
+    intros e He Hd. change (In e (persisted s1)) in Hd. rewrite Hp in Hd.
+    unfold batch_l in Hnd. rewrite Hb in Hnd. rewrite app_assoc in Hnd.
+    eapply (nodup_map_app_disjoint e_uid _ _ e Hnd); [exact Hd|]. apply in_or_app; auto.
+Qed.
+
+Lemma close_restarts_from_disk s a s' : a = AClose \/ a = ACloseOk -> reachable s -> step s a = Some s' ->
+  v_last s' = last_entry (persisted s') /\ v_lasttx s' = last_txid (persisted s') /\ chain_ok (persisted s').
+Proof.
+  intros Ha R H. pose proof (step_inv _ _ _ (reachable_inv _ R) H) as I'.
+  assert (Hx : exists s1, s' = crash s1).
+  { destruct (close_step_shape _ _ _ Ha H) as [(_ & ->)|(_ & b & s1 & _ & _ & -> & _)]; eauto. }
+  destruct Hx as (s1 & ->). split; [reflexivity|]. split; [reflexivity|].
+  pose proof (i_chain _ I') as Hc. unfold all_log in Hc. eapply chain_ok_prefix; exact Hc.
 Qed.
